@@ -12,8 +12,15 @@
 --                  periodic / sequence assertions, transition exemptions, and an optional AUXILIARY SEGMENT
 --                  (aux random elements drawn after the main commitment, aux commitment reseed, aux queries, aux
 --                  columns in the OOD frame, aux transition constraints and aux boundary assertions whose values are
---                  expressions in the random elements and the public inputs, aux columns in the DEEP composer).
---                  Not modelled: a Lagrange kernel column / GKR proof (`x=w.r.1`; the driver answers `-`).
+--                  expressions in the random elements and the public inputs, aux columns in the DEEP composer),
+--                  whose last column may be a LAGRANGE KERNEL column (`x=w.r.1`): GKR proof decoding with the
+--                  unconsumed-bytes check, the GKR verifier drawing the Lagrange random elements from the coin BEFORE
+--                  the auxiliary random elements are drawn, the requirement of log2(trace length) of them, the
+--                  Lagrange kernel frame of the OOD frame, the Lagrange kernel transition and boundary constraints
+--                  with their composition coefficients, the Lagrange term of the DEEP composition.  The GKR
+--                  verifier modelled (`gkrVerify`) is THE FAMILY'S, not the library's (the library only defines the
+--                  trait): harness/src/genair.rs `GenGkrVerifier`, the dummy set-up of the repository's own test AIR -
+--                  the "GKR proof" is a `usize` (vint64), more than 64 is an error, that many elements are drawn.
 -- Every step is an existing model, composed here:
 --     Proof::from_bytes                         Model.Parse.parseProof            (C06/C12)
 --     base-field / policy / query-count checks, AIR constructor, VerifierChannel::new
@@ -282,6 +289,9 @@ structure AuxDesc where
   /-- assertions against auxiliary columns; the asserted value is an expression in the random elements and the
       public inputs (`w<i>`: public input `i + j` for the `j`-th value of a sequence) -/
   asserts : List (VerifierChecks.AssertDesc × Composition.Expr)
+  /-- the last auxiliary column is a Lagrange kernel column (it is not part of the auxiliary evaluation frame: the
+      constraints and assertions above see `width - 1` auxiliary cells) -/
+  lagrange : Bool := false
   deriving Repr
 
 /-- a description of the harness's AIR family: what `check_main` reads (`VerifierChecks.Air`), the declared
@@ -297,6 +307,7 @@ def Desc.auxDegs (d : Desc) : List Protocol.Degree := match d.aux with | some x 
 def Desc.auxAsserts (d : Desc) : List (VerifierChecks.AssertDesc × Composition.Expr) :=
   match d.aux with | some x => x.asserts | none => []
 def Desc.auxWidth (d : Desc) : Nat := match d.aux with | some x => x.width | none => 0
+def Desc.lagrange (d : Desc) : Bool := match d.aux with | some x => x.lagrange | none => false
 
 /-- `base[.cycle]*` of a constraint `deg:expr` -/
 def parseDegree (s : String) : Option Protocol.Degree :=
@@ -377,8 +388,7 @@ def parseAuxAssertion (s : String) : Option (VerifierChecks.AssertDesc × Compos
     | _, _ => none
   | _ => none
 
-/-- the `x= u= b=` fields of a description line: `none` = malformed or with a Lagrange kernel column (not
-    modelled), `some none` = no auxiliary segment -/
+/-- the `x= u= b=` fields of a description line: `none` = malformed, `some none` = no auxiliary segment -/
 def parseAux (fields : List String) : Option (Option AuxDesc) :=
   let val (f : String) : String := "=".intercalate ((f.splitOn "=").drop 1)
   let xs := fields.filter (·.startsWith "x=")
@@ -389,17 +399,17 @@ def parseAux (fields : List String) : Option (Option AuxDesc) :=
   | [x] =>
     match ((val x).splitOn ".").mapM VerifierChecks.parseNat with
     | some [w, r, l] =>
-      if l ≠ 0 ∨ w = 0 then none
+      if w = 0 then none
       else
         let cons := (us.map fun u => (VerifierChecks.nonEmpty ((val u).splitOn ",")).mapM parseAuxConstraint)
         let asserts := (bs.map fun b => (VerifierChecks.nonEmpty ((val b).splitOn ",")).mapM parseAuxAssertion)
         match cons, asserts with
-        | [some cs], [some as] => some (some ⟨w, r, cs.map (·.2), cs.map (·.1), as⟩)
+        | [some cs], [some as] => some (some ⟨w, r, cs.map (·.2), cs.map (·.1), as, decide (l ≠ 0)⟩)
         | _, _ => none
     | _ => none
   | _ => none
 
-/-- the text form of harness/src/genair.rs; descriptions with a Lagrange kernel column are not modelled -/
+/-- the text form of harness/src/genair.rs -/
 def parseDesc (line : String) : Option Desc :=
   let fields := VerifierChecks.nonEmpty (line.splitOn ";")
   match VerifierChecks.parseAir line, parseAux fields with
@@ -517,6 +527,10 @@ def compAir (E : EOps) (d : Desc) (asserts auxAsserts : List (Divisor.Assertion 
   mainAsserts := asserts
   auxAsserts := auxAsserts
 
+/-- width of the auxiliary evaluation frame: the auxiliary width of the proof's trace info, without the Lagrange
+    kernel column (`OodFrame::parse`: `aux_trace_width - 1` when there is a Lagrange kernel frame) -/
+def auxFrameWidth (d : Desc) (ti : Serde.TraceInfo) : Nat := if d.lagrange then ti.aux - 1 else ti.aux
+
 /-- what `evaluate_constraints` computes before it touches the frame, or `none` where the real code panics:
     the assertions of `get_periodic_column_polys` (cycle length `>= 2`, a power of two, at most the trace
     length), an out-of-range index in a main or auxiliary constraint (`Expr::eval`), the value expressions of the
@@ -527,7 +541,10 @@ def prepOf (E : EOps) (d : Desc) (pubs : List Nat) (ti : Serde.TraceInfo) (rands
     Option (Composition.Air El × Composition.Prep El) :=
   if !d.air.periodic.all (fun p => decide (2 ≤ p.length) && Divisor.isPow2 p.length && decide (p.length ≤ ti.length)) then none
   else if !d.air.constraints.all (exprInRange ti.main d.air.periodic.length) then none
-  else if !d.auxCons.all (exprInRangeX ti.main d.air.periodic.length ti.aux rands.length) then none
+  else if !d.auxCons.all (exprInRangeX ti.main d.air.periodic.length (auxFrameWidth d ti) rands.length) then none
+  -- `group.evaluate_at(aux_trace_frame.current(), x)` indexes the auxiliary frame by the assertion's column:
+  -- `prepare_assertions` admits the Lagrange kernel column, the frame does not have it
+  else if d.lagrange && !d.auxAsserts.all (fun av => decide (av.1.column < auxFrameWidth d ti)) then none
   else
     match mkAssertions E d pubs, mkAuxAssertions E d pubs rands with
     | some asserts, some auxAsserts =>
@@ -543,24 +560,63 @@ def cell (E : EOps) (row : List El) (i : Nat) : El :=
   | some v => v
   | none => E.zero
 
-/-- the OOD evaluation frames of the two segments: the OOD trace frame arrives in hashing order (current and next
-    value of every column interleaved, main columns first) -/
-def oodFrames (E : EOps) (mainWidth : Nat) (oodTrace : List El) : Composition.Frames El :=
-  let cn := Serde.deinterleave oodTrace
-  ⟨cell E (cn.1.take mainWidth), cell E (cn.2.take mainWidth), cell E (cn.1.drop mainWidth), cell E (cn.2.drop mainWidth)⟩
+/-- the OOD trace frame arrives in hashing order: current and next value of every column of the evaluation frames
+    interleaved (main columns first, `frameWidth` columns in all), then the Lagrange kernel frame:
+    (current row, next row, Lagrange kernel frame) -/
+def splitOod (frameWidth : Nat) (oodTrace : List El) : List El × List El × List El :=
+  let cn := Serde.deinterleave (oodTrace.take (2 * frameWidth))
+  (cn.1, cn.2, oodTrace.drop (2 * frameWidth))
 
-/-- `evaluate_constraints(air, coefficients, OOD main frame, OOD aux frame, aux rands, z)` -/
-def evalConstraints (E : EOps) (d : Desc) (pubs : List Nat) (ti : Serde.TraceInfo) (rands coeffs oodTrace : List El)
+/-- the OOD evaluation frames of the two segments -/
+def oodFrames (E : EOps) (mainWidth frameWidth : Nat) (oodTrace : List El) : Composition.Frames El :=
+  let cn := splitOod frameWidth oodTrace
+  ⟨cell E (cn.1.take mainWidth), cell E (cn.2.1.take mainWidth), cell E (cn.1.drop mainWidth), cell E (cn.2.1.drop mainWidth)⟩
+
+/-- `LagrangeKernelTransitionConstraints::evaluate_and_combine(frame, rands, x)`: with `v = frame rows − 1`, for
+    `k = 1 .. v` the numerator `coeff_(k−1) · (r_(v−k) · c_0 − (1 − r_(v−k)) · c_(v−k+1))` divided by its divisor
+    `ConstraintDivisor::from_transition(2^(k−1), 0)` at `x`, i.e. `x^(2^(k−1)) − 1` (over an empty product of
+    exemptions), summed; the numerators are zipped with the coefficients -/
+def lagrangeTransition (E : EOps) (frame rands coeffs : List El) (x : El) : El :=
+  let v := frame.length - 1
+  let evals := (List.range v).map fun i =>
+    let k := i + 1
+    let r := cell E rands (v - k)
+    E.sub (E.mul r (cell E frame 0)) (E.mul (E.sub E.one r) (cell E frame (v - k + 1)))
+  ((evals.zip coeffs).zipIdx).foldl (fun acc eci =>
+    let numerator := E.mul eci.1.2 eci.1.1
+    let z := match Divisor.Divisor.evalAt E.div ⟨[(2 ^ eci.2, E.one)], []⟩ x with
+      | some z => z
+      | none => E.zero
+    E.add acc (E.mul numerator (E.inv z))) E.zero
+
+/-- `LagrangeKernelBoundaryConstraint::evaluate_at(x, frame)`: `(c_0 − Π (1 − r_i)) · coeff / (x − 1)` -/
+def lagrangeBoundary (E : EOps) (frame rands : List El) (coeff x : El) : El :=
+  let assertionValue := rands.foldl (fun av r => E.mul av (E.sub E.one r)) E.one
+  E.mul (E.mul (E.sub (cell E frame 0) assertionValue) coeff) (E.inv (E.sub x E.one))
+
+/-- `evaluate_constraints(air, coefficients, OOD main frame, OOD aux frame, Lagrange kernel frame, aux rands, z)`:
+    transition constraints and boundary groups of both segments (composition model), then, for an AIR with a
+    Lagrange kernel column, the Lagrange kernel transition constraints and boundary constraint with the coefficients
+    that follow the boundary coefficients (`log2 n` of them, then one) -/
+def evalConstraints (E : EOps) (d : Desc) (pubs : List Nat) (ti : Serde.TraceInfo) (rands lagRands coeffs oodTrace : List El)
     (z : El) : El :=
   match prepOf E d pubs ti rands with
   | none => E.zero
   | some (air, P) =>
     let nT := d.air.constraints.length + d.auxCons.length
     let nA := d.air.assertions.length + d.auxAsserts.length
-    match Composition.evaluateConstraints E.div air P (oodFrames E ti.main oodTrace) (cell E rands)
+    let fw := ti.main + auxFrameWidth d ti
+    let base := match Composition.evaluateConstraints E.div air P (oodFrames E ti.main fw oodTrace) (cell E rands)
         (coeffs.take nT) ((coeffs.drop nT).take nA) z with
-    | some v => v
-    | none => E.zero
+      | some v => v
+      | none => E.zero
+    if d.lagrange then
+      let frame := (splitOod fw oodTrace).2.2
+      let lc := coeffs.drop (nT + nA)
+      let nL := Nat.log2 ti.length
+      E.add (E.add base (lagrangeTransition E frame lagRands (lc.take nL) z))
+        (lagrangeBoundary E frame lagRands (cell E lc nL) z)
+    else base
 
 /-- `Σ_i z^((i·n) as u32) · value_i` (verifier/src/lib.rs; the exponent is cast to `u32`) -/
 def combineOod (E : EOps) (n : Nat) (z : El) (vals : List El) : El :=
@@ -590,11 +646,29 @@ def segmentNum (E : EOps) (x z0 z1 : El) (vals oodCur oodNxt ccs : List El) : El
   let t2num := linComb E vals oodNxt ccs
   E.add (E.mul t1num (E.sub x z1)) (E.mul t2num (E.sub x z0))
 
+/-- the Lagrange kernel term of `compose_trace_columns`, per query: with the opening points
+    `xs = [z, z·g, z·g², z·g⁴, …]` (as many as the Lagrange frame has rows) and the frame as values,
+    `(T_l(x) − p_S(x)) · cc_lagrange / Z_S'(x)` where `p_S` interpolates the frame over `xs` (`polynom::interpolate`,
+    here evaluated by Lagrange's formula: the same value whenever the points are distinct, i.e. `z ≠ 0`) and
+    `Z_S'` vanishes on `xs[2..]`; `T_l(x)` is the last cell of the queried auxiliary row -/
+def lagrangeNums (E : EOps) (xs : List El) (z : El) (gTrace : Nat) (lagCol : Nat) (cc : El) (frame : List El)
+    (auxRows : List (List El)) : List El :=
+  let F := E.fri
+  let gexps := (List.range (frame.length - 1)).map fun i => E.ofBase (E.I.exp gTrace (2 ^ i))
+  let pts := z :: gexps.map fun g => E.mul z g
+  (auxRows.zip xs).map fun rx =>
+    let value := cell E rx.1 lagCol
+    let num := E.mul (E.sub value (Fri.lagrangeEval F pts frame rx.2)) cc
+    let den := (pts.drop 2).foldl (fun acc p => E.mul acc (E.sub rx.2 p)) E.one
+    E.mul num (E.inv den)
+
 /-- `compose_trace_columns`: per query the numerator of the main segment, plus (for a multi-segment trace) the
-    numerator of the auxiliary segment with the coefficients and OOD values that follow the main ones, over the
+    numerator of the auxiliary segment with the coefficients and OOD values that follow the main ones (the
+    auxiliary OOD frame does not contain a Lagrange kernel column, so that column of the queried row is left out),
+    plus the Lagrange kernel term, over the
     common denominator `(x − z)(x − z·g)` (batch inversion = inversion entry by entry, zero mapped to zero) -/
 def composeTrace (E : EOps) (xs : List El) (z0 z1 : El) (mainWidth : Nat) (ccTrace : List El)
-    (mainRows : List (List El)) (auxRows : Option (List (List El))) (oodCur oodNxt : List El) : List El :=
+    (mainRows : List (List El)) (auxRows : Option (List (List El))) (oodCur oodNxt : List El) (lagNums : List El) : List El :=
   let auxNums : List El := match auxRows with
     | none => []
     | some rows => (rows.zip xs).map fun rx =>
@@ -605,6 +679,9 @@ def composeTrace (E : EOps) (xs : List El) (z0 z1 : El) (mainWidth : Nat) (ccTra
     let num := match auxNums[rxj.2]? with
       | some a => E.add num a
       | none => num
+    let num := match lagNums[rxj.2]? with
+      | some l => E.add num l
+      | none => num
     E.mul num (E.inv (E.mul (E.sub x z0) (E.sub x z1)))
 
 /-- `compose_constraint_evaluations`: per query `Σ_i (H_i(x) − H_i(z)) · cc_i / (x − z)` -/
@@ -613,19 +690,26 @@ def composeConstraints (E : EOps) (xs : List El) (z0 : El) (ccCons : List El) (r
   (rows.zip xs).map fun rx => E.mul (linComb E rx.1 oodEvals ccCons) (E.inv (E.sub rx.2 z0))
 
 /-- `DeepComposer::new`, `compose_trace_columns`, `compose_constraint_evaluations`, `combine_compositions`;
-    `width` = main + auxiliary width (the number of trace coefficients) -/
-def deepCompose (E : EOps) (n lde mainWidth width : Nat) (positions : List Nat) (z : El) (deep : List El)
-    (traceRows : List (List (List El))) (constraintRows : List (List El)) (oodTrace oodEvals : List El) : List El :=
+    `width` = main + auxiliary width (the number of trace coefficients), `frameWidth` the number of columns of the OOD
+    evaluation frames, `lag = some ncols` for an AIR with a Lagrange kernel column (`ncols` constraint composition
+    columns: the Lagrange coefficient follows the `width + ncols` others) -/
+def deepCompose (E : EOps) (n lde mainWidth width frameWidth : Nat) (lag : Option Nat) (positions : List Nat) (z : El)
+    (deep : List El) (traceRows : List (List (List El))) (constraintRows : List (List El)) (oodTrace oodEvals : List El) :
+    List El :=
   let xs := xCoordinates E lde positions
   let gTrace := match rootRaw E.I (Nat.log2 n) with
     | some g => g
     | none => E.I.new 0
   let z1 := E.mul z (E.ofBase gTrace)
-  let cn := Serde.deinterleave oodTrace
+  let cn := splitOod frameWidth oodTrace
   let mainRows := match traceRows with
     | r :: _ => r
     | [] => []
-  let t := composeTrace E xs z z1 mainWidth (deep.take width) mainRows traceRows[1]? (cn.1.take width) (cn.2.take width)
+  let lagNums := match lag, traceRows[1]? with
+    | some ncols, some auxRows =>
+      lagrangeNums E xs z gTrace (width - mainWidth - 1) (cell E deep (width + ncols)) cn.2.2 auxRows
+    | _, _ => []
+  let t := composeTrace E xs z z1 mainWidth (deep.take width) mainRows traceRows[1]? cn.1 cn.2.1 lagNums
   let c := composeConstraints E xs z (deep.drop width) constraintRows oodEvals
   List.zipWith E.add t c
 
@@ -649,7 +733,7 @@ def frontAir (J : Inst) (d : Desc) : Parse.Air where
   nMainAssert := d.air.assertions.length
   nAuxAssert := d.auxAsserts.length
   descAuxWidth := d.auxWidth
-  lagrange := false
+  lagrange := d.lagrange
 
 /-- `proof.security_level::<H>(true)`; `none` = an arithmetic panic -/
 def securityLevel (J : Inst) (d : Desc) (ctx : Serde.Context) : Option Nat :=
@@ -692,6 +776,29 @@ def evalRemainder (E : EOps) (rem : List El) (dom pos : Nat) : El :=
   let F := E.fri
   Fri.horner F rem (F.mul F.offset (Fri.pow F (F.root (Nat.log2 dom)) pos))
 
+/-- the GKR "proof" of the family's dummy Lagrange kernel set-up (`GenGkrVerifier::GkrProof = usize`):
+    `usize::read_from` on the serialized GKR proof, which must be consumed entirely (lib.rs: `UnconsumedBytes`);
+    `none` = `ProofDeserializationError` -/
+def decodeGkr (g : Serde.Bytes) : Option Nat :=
+  match Serde.runAll Serde.readUsize g with
+  | .ok k => some k
+  | _ => none
+
+/-- `GenGkrVerifier::verify(gkr_proof, public_coin)` of harness/src/genair.rs (THE FAMILY'S GKR verifier: more than
+    64 is an error, otherwise that many Lagrange random elements are drawn from the coin) followed by the check of
+    lib.rs that there are exactly `log2(trace length)` of them; `none` = `GkrProofVerificationFailed` (a GKR
+    proof that does not decode is reported as `ProofDeserializationError` by `refVerifyProof` before this runs) -/
+def gkrVerify (K : VerifierChecks.CoinOps (Coin.Coin Dg) Dg El) (logLen : Nat) (g : Serde.Bytes) (c : Coin.Coin Dg) :
+    Option (List El × Coin.Coin Dg) :=
+  match decodeGkr g with
+  | none => none
+  | some k =>
+    if k > 64 then none
+    else
+      match VerifierChecks.drawMany K k c with
+      | none => none
+      | some (lag, c') => if lag.length = logLen then some (lag, c') else none
+
 /-- the AIR instance of a proof context: the number of auxiliary random elements, the widths and the trace length
     come from the PROOF's trace info, the numbers of constraints and assertions from the description -/
 def airInst (J : Inst) (E : EOps) (d : Desc) (pubs : List Nat) (ctx : Serde.Context) :
@@ -701,19 +808,23 @@ def airInst (J : Inst) (E : EOps) (d : Desc) (pubs : List Nat) (ctx : Serde.Cont
   let lde := ti.length * o.blowup
   { extSupported := true
     multiSegment := decide (ti.aux > 0)
-    lagrange := false
+    lagrange := d.lagrange
     numAuxRands := ti.rands
+    -- transition, boundary, then (Lagrange kernel column) `log2 n` transition coefficients and one boundary coefficient
     numCoeffs := d.air.constraints.length + d.auxCons.length + (d.air.assertions.length + d.auxAsserts.length)
-    numDeepCoeffs := ti.main + ti.aux + numCols J d ctx
+      + (if d.lagrange then Nat.log2 ti.length + 1 else 0)
+    -- one per trace column, one per constraint composition column, then (Lagrange kernel column) one more
+    numDeepCoeffs := ti.main + ti.aux + numCols J d ctx + (if d.lagrange then 1 else 0)
     ldeSize := lde
     numQueries := o.numQueries
     grinding := o.grinding
     fri := friOpts o
     tracePolyDegree := ti.length - 1
-    gkrVerify := fun _ _ => none
-    evalConstraints := fun coeffs auxRands _ oodTrace z => evalConstraints E d pubs ti auxRands coeffs oodTrace z
+    gkrVerify := gkrVerify (coinOps J E) (Nat.log2 ti.length)
+    evalConstraints := fun coeffs auxRands lagRands oodTrace z => evalConstraints E d pubs ti auxRands lagRands coeffs oodTrace z
     combineOod := combineOod E ti.length
-    deepCompose := deepCompose E ti.length lde ti.main (ti.main + ti.aux)
+    deepCompose := deepCompose E ti.length lde ti.main (ti.main + ti.aux) (ti.main + auxFrameWidth d ti)
+      (if d.lagrange then some (numCols J d ctx) else none)
     foldRow := fun _ dom pos row alpha => foldRow E lde o.folding dom pos row alpha
     evalRemainder := evalRemainder E }
 
@@ -735,7 +846,7 @@ def mkVerifier (J : Inst) (E : EOps) (d : Desc) (pubs : List Nat) (acc : Accepta
 /-! ## 6. From the parsed byte blocks to the verifier's inputs -/
 
 /-- parameters of `VerifierChannel::new` for a context whose AIR asks for `ncols` composition columns -/
-def chanCfg (J : Inst) (ctx : Serde.Context) (ncols : Nat) : VerifierChecks.ChanCfg :=
+def chanCfg (J : Inst) (d : Desc) (ctx : Serde.Context) (ncols : Nat) : VerifierChecks.ChanCfg :=
   let ti := ctx.traceInfo
   let o := ctx.options
   let lde := ti.length * o.blowup
@@ -743,7 +854,7 @@ def chanCfg (J : Inst) (ctx : Serde.Context) (ncols : Nat) : VerifierChecks.Chan
     mainWidth := ti.main, auxWidth := ti.aux, constraintWidth := ncols,
     ldeLog := Nat.log2 lde,
     numFriLayers := (Protocol.friLayers lde ((o.remDeg + 1) * o.blowup) o.folding).1,
-    folding := o.folding, lagrangeLog := none }
+    folding := o.folding, lagrangeLog := if d.lagrange then some (Nat.log2 ti.length) else none }
 
 /-- canonical coordinates (as the readers deliver them) to canonical raw words -/
 def rawEl (J : Inst) (cs : List Nat) : El := cs.map fun c => J.norm (J.I.new c)
@@ -756,7 +867,10 @@ def rawOpening (J : Inst) (o : VerifierChecks.ParsedOpening) : VerifierChecks.Op
 def committedOf (J : Inst) (c : VerifierChecks.ParsedChannel) : VerifierChecks.Committed El Dg where
   traceRoots := c.traceRoots.map (rawDg J)
   constraintRoot := rawDg J c.constraintRoot
-  oodTrace := Serde.interleave (c.oodCurrent.map (rawEl J)) (c.oodNext.map (rawEl J))
+  oodTrace := Serde.interleave (c.oodCurrent.map (rawEl J)) (c.oodNext.map (rawEl J)) ++
+    (match c.oodLagrange with
+     | some l => l.map (rawEl J)
+     | none => [])
   oodEvals := c.oodEvals.map (rawEl J)
   friRoots := c.friRoots.map (rawDg J)
   powNonce := c.powNonce
@@ -770,20 +884,23 @@ def openedOf (J : Inst) (c : VerifierChecks.ParsedChannel) : VerifierChecks.Open
   remainder := c.remainder.map (rawEl J)
   numPartitions := c.numPartitions
 
-/-- the auxiliary random elements `perform_verification` draws for a multi-segment trace: the coin seeded with
-    context and public inputs, reseeded with the main trace commitment, `trace_info.num_aux_segment_rands` draws
-    (`[]` for a single-segment trace; `none` = a draw fails: the `expect` of lib.rs panics, reported by the
-    decision function itself) -/
+/-- the random elements `perform_verification` obtains for a multi-segment trace, in the order of the code: the coin
+    seeded with context and public inputs, reseeded with the main trace commitment; for an AIR with a Lagrange
+    kernel column FIRST the GKR verifier (it draws the Lagrange random elements), THEN
+    `trace_info.num_aux_segment_rands` draws for the auxiliary random elements: (auxiliary, Lagrange) random elements
+    (`([], [])` for a single-segment trace; `none` = the phase ends in an error or a panic - no GKR proof, the GKR
+    verifier refuses, a draw fails -, which the decision function itself reports) -/
 def auxRandsOf (J : Inst) (E : EOps) (d : Desc) (pubs : List Nat) (acc : Acceptable) (ctx : Serde.Context)
-    (c : VerifierChecks.ParsedChannel) : Option (List El) :=
-  if ctx.traceInfo.aux = 0 then some []
-  else
-    let W := mkVerifier J E d pubs acc
-    match (committedOf J c).traceRoots with
-    | [] => none
-    | r0 :: _ =>
-      (VerifierChecks.drawMany W.coin ctx.traceInfo.rands
-        (W.coin.reseed (W.coin.new (VerifierChecks.coinSeed W.elemBytes ctx W.pubElems)) r0)).map (·.1)
+    (c : VerifierChecks.ParsedChannel) : Option (List El × List El) :=
+  let W := mkVerifier J E d pubs acc
+  let cm := committedOf J c
+  match cm.traceRoots with
+  | [] => none
+  | r0 :: rest =>
+    match VerifierChecks.auxPhase W.coin (W.air ctx) cm
+        (W.coin.reseed (W.coin.new (VerifierChecks.coinSeed W.elemBytes ctx W.pubElems)) r0) r0 rest with
+    | .ok (ar, lr, _, _) => some (ar, lr)
+    | .error _ => none
 
 /-! ## 7. The reference verifier -/
 
@@ -818,7 +935,13 @@ def shapeOk (J : Inst) (E : EOps) (d : Desc) (pubs : List Nat) (acc : Acceptable
     (c : VerifierChecks.ParsedChannel) : Bool :=
   match auxRandsOf J E d pubs acc ctx c with
   | none => true
-  | some rands => (prepOf E d pubs ctx.traceInfo rands).isSome
+  | some rands => (prepOf E d pubs ctx.traceInfo rands.1).isSome
+
+/-- there is a serialized GKR proof and `usize::read_from` does not consume exactly its bytes -/
+def gkrUndecodable (g : Option Serde.Bytes) : Bool :=
+  match g with
+  | some b => (decodeGkr b).isNone
+  | none => false
 
 /-- `verify::<GenericAir, H, DefaultRandomCoin<H>>(proof, pub_inputs, acceptable)` on a parsed proof, step by step:
     base-field check, acceptance policy, query-count check, AIR constructor, extension support and
@@ -843,11 +966,14 @@ def refVerifyProof (J : Inst) (d : Desc) (pubs : List Nat) (acc : Acceptable) (p
       | .pass =>
         match Parse.airNew A ctx.traceInfo ctx.options, extOps J ctx.options.fieldExt with
         | some ncols, some E =>
-          match VerifierChecks.channelParse (chanCfg J ctx ncols) p with
+          match VerifierChecks.channelParse (chanCfg J d ctx ncols) p with
           | .panic => .err (.panic "VerifierChannel::new")
           | .err _ => .err .deserialization
           | .ok c =>
-            if !shapeOk J E d pubs acc ctx c then .err (.panic "evaluate_constraints")
+            -- the first thing `perform_verification` can fail on: the serialized GKR proof of a multi-segment
+            -- trace with a Lagrange kernel column does not decode / has bytes left over
+            if d.lagrange && decide (ctx.traceInfo.aux > 0) && gkrUndecodable c.gkr then .err .deserialization
+            else if !shapeOk J E d pubs acc ctx c then .err (.panic "evaluate_constraints")
             else Verdict.ofExcept (VerifierChecks.verify (mkVerifier J E d pubs acc) ctx (some (committedOf J c, openedOf J c)))
         | _, _ => .err (.panic "AIR::new")
 
